@@ -61,10 +61,10 @@ def run_harness(P, harness, jobs=12, max_paths=200000, seed=0, timeout=None, set
     out_dir = tempfile.mkdtemp(prefix="mirsym.")
     t0 = time.time()
     E = Explorer(out_dir, jobs=jobs, max_paths=max_paths, seed=seed)
-    I = interp.Interp(P, E)
-    if setup: setup(I)
 
     def body(E_):
+        I = interp.Interp(P, E_)          # fresh interpreter state per path
+        if setup: setup(I)
         r = harness(I, H(I))
         return dict(result=r, fns=sorted(I.fns_run))
 
